@@ -218,6 +218,43 @@ fn run_history(vseed: u64, hi: usize, rep: &mut Report) {
 /// A correct generator discards or repairs such a candidate AND re-validates; whatever key it
 /// finally returns gets all oracles (through the byte encoding, which is how a key reaches a
 /// SecretKey object from outside).
+/// A key pair from `math::ntru_gen` under the planted-candidate generator (see
+/// steered_candidates), imported through the byte encoding. None if the generator did not
+/// return a representable key.
+pub fn planted_key<V: Fv>(vseed: u64, i: usize) -> Option<(V::Sk, V::Pk)> {
+    use falcon_rust::verif_hooks as vh;
+    use rand::Rng;
+    let mut rng = crate::util::rng_for(vseed, "c04-plant-base");
+    let mut find = |want: i16| -> [u8; 9] {
+        loop {
+            let b: [u8; 9] = rng.gen();
+            if vh::sampler::base_sampler(b) == want {
+                return b;
+            }
+        }
+    };
+    let (b3, b4) = (find(3), find(4));
+    let (base, sign) = if i % 2 == 0 { (b3, 1u8) } else { (b4, 0u8) };
+    let strat = crate::gen::Strategy::PlantPerCandidate { groups: 4096 / V::N as u64, base, sign, every: 2 };
+    let mut srng = crate::gen::ScriptedRng::new(vseed, &format!("c04-plant-{}-{}", V::NAME, i), strat, 400_000_000);
+    vh::take_keygen_candidates();
+    let out = monitored(move || {
+        let (f, g, cf, _cg) = falcon_rust::math::ntru_gen(V::N, &mut srng);
+        (f.coefficients, g.coefficients, cf.coefficients)
+    });
+    vh::take_keygen_candidates();
+    let (f, g, cf) = out.ok()?;
+    let to64 = |v: &Vec<i16>| v.iter().map(|&x| x as i64).collect::<Vec<i64>>();
+    let (w, _) = spec::sk_widths(V::N);
+    let lim = (1i64 << (w - 1)) - 1;
+    if to64(&f).iter().chain(to64(&g).iter()).any(|x| x.abs() > lim) || to64(&cf).iter().any(|x| x.abs() > 127) {
+        return None;
+    }
+    let sk = monitored(|| V::sk_from_bytes(&spec::sk_encode(&to64(&f), &to64(&g), &to64(&cf)))).ok()?.ok()?;
+    let pk = V::pk_from_sk(&sk);
+    Some((sk, pk))
+}
+
 fn steered_candidates<V: Fv>(ctx: &Ctx, runs: usize, rep: &mut Report) {
     use falcon_rust::verif_hooks as vh;
     use rand::Rng;
